@@ -384,7 +384,13 @@ Fixpoint descend_idle (fuel : nat) (s : state) (i : iref) : list wref :=
   | S f =>
     match v_isync (get_inv s i) with
     | w :: _ => [w]
-    | [] => flat_map (descend_idle f s) (minimal (ichildren_less s) (idle_sync_children s i))
+    | [] =>
+      (* idleSynchronizingWorkersChildrenHeap.Less is not a strict weak order (it
+         looks at the children's direct idle workers only), so a heap of these
+         children may have no minimal element at all; heap[0] is then whatever
+         the sift operations left there: every child is admissible *)
+      let cs := idle_sync_children s i in
+      flat_map (descend_idle f s) (match minimal (ichildren_less s) cs with [] => cs | m => m end)
     end
   end.
 
